@@ -289,8 +289,17 @@ func oracleFor(op *Sexp, res string) []string {
 			return nil
 		}
 		v, err := parseVal(op.List[4])
-		if err != nil || multiEntryMaps(v) || res == "err" {
+		if err != nil || res == "err" {
 			return nil
+		}
+		if currentProp == "C12" && c.cfg[1] == '1' && c.tag == "" && strings.HasPrefix(res, "ok x") {
+			// with the repeated forms on, the output is protobuf: an independent protobuf reader must get the value back
+			if out, err := unhx(res[3:]); err == nil {
+				fails = append(fails, oraclePB(c.td, v, out, c.cfg[0] == '1')...)
+			}
+		}
+		if multiEntryMaps(v) {
+			return fails
 		}
 		want := "ok " + hx(cfgRef(c.cfg).top(c.td, v, c.tag))
 		if res != want {
